@@ -124,6 +124,15 @@ func runC17(c c17Case) vh.Result {
 		}
 	}
 	repushes, mutations := 0, 0
+	// slices handed back by PeekN / PopN are values the caller keeps: a later call must not change them
+	type keptSlice struct {
+		step int
+		op   string
+		got  []stanza.Queueable
+		was  []stanza.Queueable
+	}
+	var kept []keptSlice
+	keptChecked := 0
 	for i, op := range c.Ops {
 		before, beforeIds := snapshot()
 		switch op.Op {
@@ -201,6 +210,9 @@ func runC17(c c17Case) vh.Result {
 			for _, g := range got {
 				hold(g, op.Op == "popN")
 			}
+			if len(got) > 0 {
+				kept = append(kept, keptSlice{i, op.Op, got, append([]stanza.Queueable(nil), got...)})
+			}
 			ps, ids, err := c17Payloads(got)
 			if err != nil {
 				res.Fail("popn-type", "step %d %s(%d): %v", i, op.Op, op.K, err)
@@ -251,6 +263,18 @@ func runC17(c c17Case) vh.Result {
 				res.Fail("peek-modifies", "step %d: %s changed the queue from %q%v to %q%v", i, op.Op, before, beforeIds, after, afterIds)
 			}
 		}
+		for _, k := range kept {
+			if k.step == i {
+				continue
+			}
+			keptChecked++
+			for j := range k.was {
+				if k.got[j] != k.was[j] {
+					res.Fail("result-changed-later", "step %d (%s): the slice returned by %s at step %d had entry %d = %+v, now %+v", i, op.Op, k.op, k.step, j, k.was[j], k.got[j])
+					break
+				}
+			}
+		}
 		for j := 1; j < len(afterIds); j++ {
 			if afterIds[j] <= afterIds[j-1] {
 				res.Fail("ids-not-increasing", "step %d (%s): sequence numbers %v not strictly increasing", i, op.Op, afterIds)
@@ -268,6 +292,9 @@ func runC17(c c17Case) vh.Result {
 	if mutations > 0 {
 		res.Label("caller-changes-own-entry")
 	}
+	if keptChecked > 0 {
+		res.Label("earlier-peekN-popN-result-rechecked")
+	}
 	if poppedAfterRefill {
 		res.Label("pop-after-empty-and-refill")
 	}
@@ -279,7 +306,7 @@ func runC17(c c17Case) vh.Result {
 
 var c17 = vh.Define(&vh.Def[c17Case]{
 	Property: "C17", Name: "fifo",
-	Rule: "rapid-generated operation sequences (1-40 ops over push, push of a foreign Queueable, pop, popN(k), peek, peekN(k), empty, push of an entry the caller already holds (pushed before or returned by a pop or peek), the caller overwriting an entry it owns (built for Push or handed back by a pop); k drawn from negative / 0 / exactly the length / beyond / small) applied to stanza.UnAckQueue and to a reference slice, compared after every step; non-trivial = a pop/popN after the queue was emptied and refilled, or a sequence mixing peeks and pops; distinct = distinct operation sequences (SHA-256 of the case)",
+	Rule: "rapid-generated operation sequences (1-40 ops over push, push of a foreign Queueable, pop, popN(k), peek, peekN(k), empty, push of an entry the caller already holds (pushed before or returned by a pop or peek), the caller overwriting an entry it owns (built for Push or handed back by a pop); k drawn from negative / 0 / exactly the length / beyond / small) applied to stanza.UnAckQueue and to a reference slice, compared after every step; every slice PeekN / PopN handed back is kept and compared again (entry identity) after every later step; non-trivial = a pop/popN after the queue was emptied and refilled, or a sequence mixing peeks and pops; distinct = distinct operation sequences (SHA-256 of the case)",
 	Quick: 20000, Thorough: 2000000,
 	Gen: genC17, Run: runC17,
 })
